@@ -6,6 +6,8 @@ GROUPS = [
     dict(name="format_seg", harness="harness/C14_format.c", enforce="format_seg", replace=["ssw_snprintf4", "logmath_exp", "json_escape"], allow_no_body=["*"], unwind=3, min_postconditions=2, backends=[["--sat-solver", "cadical"]]),
     dict(name="result_json_empty", harness="harness/C14_format.c", entry="h_decoder_result_json_empty", enforce="decoder_result_json", defines=["VERIF_JSON_EMPTY"],
          replace=["format_hyp", "decoder_seg_iter", "config_int"], allow_no_body=["*"], unwind=10, min_postconditions=3),
+    dict(name="json_escape", tiers=("probe",), harness="harness/C14_escape.c", entry="r_json_escape", allow_no_body=["*"], unwind=8, defines_thorough=["NESC=5"], unwind_thorough=10,
+         bounded="every word spelling of <= 3 bytes (thorough 5), all 256 byte values per position; sprintf as an executable stub for the format \\u%04x"),
     dict(name="result_json_segments", tiers=("probe",), harness=H, entry="r_result_json", allow_no_body=["*"], unwind=10, object_bits=13, backends=[["--sat-solver", "cadical"]], flags=["--memory-leak-check"], replay=RJ,
          bounded="results of 0..2 segments, word spellings of 0..2 symbolic characters, frame rate 100 or 80, no alignment levels; snprintf as a deterministic executable stub"),
 ]
@@ -14,6 +16,9 @@ NATIVE = [
     dict(name="e2e_invariants", source="native/e2e_invariants.c", repo_sources="ALL_EXCEPT:", cflags=["-w", "-fsanitize=address"],
          args={"quick": ["C14"], "thorough": ["C14"]}, exhaustive=False,
          bound="end-to-end invariants of this property on ~12 real decodes (bundled en-us / fr-fr models; goforward recordings with JSGF grammar, FSG file and forced-alignment text; one call, 2048-sample blocks with partial results, float32; digital silence; white noise) under AddressSanitizer -- a safety net under the contracts, not a proof"),
+    dict(name="json_escape_enum", source="native/json_escape_enum.c", repo_sources="ALL_EXCEPT:decoder.c", cflags=["-w", "-fsanitize=address"],
+         args={"quick": [], "thorough": ["thorough"]}, exhaustive=True,
+         bound="real json_escape: every spelling of 1 or 2 bytes over all 255 non-NUL byte values, every spelling of 3 bytes over 48 representative bytes, 100 000 (thorough 2 000 000) pseudo-random spellings of 4..14 bytes; decoded back by an independent JSON string decoder, exact length, ASan"),
     dict(name="json_times", source="native/json_times.c", repo_sources="ALL_EXCEPT:decoder.c", cflags=["-w"],
          args={"quick": ["quick"], "thorough": ["thorough"]}, exhaustive=True,
          bound="real format_seg: every start frame in [0,400) (thorough [0,3000)), durations 1..60, frame rates {50,80,100,120,125,200}, offsets {0,7.5}"),
